@@ -441,7 +441,19 @@ fn gen_case(k: usize, rng: &mut Rng) -> Case {
             ldsp_walk(v, rng)
         }
         2 => recursion(rng),
-        3 => jump_to(rng.u8(), rng),
+        3 => {
+            let mut p = jump_to(rng.u8(), rng);
+            if rng.chance(1, 3) {
+                // enable the key interrupt first: LDSP, BITS (F9),#mask, EI, then the jump
+                let head = [0xFB, 0xEF, 0x40, 0xFB, *rng.pick(&[0x01u8, 0x31, 0x3F]), 0x5F, 0xF9, 0x08];
+                let t = p.ram[1];
+                p.ram[..head.len()].copy_from_slice(&head);
+                p.ram[head.len()] = 0xFB;
+                p.ram[head.len() + 1] = t;
+                p.ram[head.len() + 2] = 0x13;
+            }
+            p
+        }
         _ => {
             let mut p = random_program(rng);
             if rng.chance(1, 2) {
@@ -498,6 +510,8 @@ fn directed(k: usize) -> Option<Case> {
         7 => mk(&[0x02, 0x02], Limit::Auto),
         // an endless loop that never halts
         8 => mk(&[0x44, 0x20, 0xFD], Limit::Size(255)),
+        // key interrupt enabled (enable bit + IE), then STOP: the interrupt key must not release the halt
+        9 => mk(&[0xFB, 0xEF, 0x40, 0xFB, 0x01, 0x5F, 0xF9, 0x08, 0x02, 0x01, 0x44, 0x01, 0x20, 0xFB], Limit::Size(255)),
         _ => return None,
     })
 }
